@@ -34,7 +34,12 @@ type replayDesc struct {
 	Kind     string         `json:"kind"`
 	Seed     uint64         `json:"seed"`
 	Scenario *scen.Scenario `json:"scenario,omitempty"`
+	// optional (corpus): the order in which the valid tuples enter the store and the level boundaries
+	Perm []int `json:"perm,omitempty"`
+	Cuts []int `json:"cuts,omitempty"`
 }
+
+var pinnedPerm, pinnedCuts []int
 
 func main() {
 	o := rec.ParseFlags()
@@ -64,7 +69,9 @@ func main() {
 				runKeysCase(ctx, w, d.Seed)
 			case "api":
 				if d.Scenario != nil {
+					pinnedPerm, pinnedCuts = d.Perm, d.Cuts
 					runAPICase(ctx, w, farm, d.Scenario, d.Seed, o.Tier)
+					pinnedPerm, pinnedCuts = nil, nil
 				}
 			case "shape": // a read shape reported by the counting datastore: measure again on fresh scenarios
 				r := rec.NewRand(o.Seed)
